@@ -46,6 +46,7 @@ def run(repo, chk, tier):
     chk.info("not decided: the end-to-end assembly of the amplitude (einsum over helicities, sum over chains), the sign (-1)^J that the angle conventions induce, identical-particle symmetrisation")
     cg_matrix(repo, chk)
     barrier(repo, chk)
+    barrier_options(repo, chk)
     decay_amplitudes(repo, chk)
     # theta_k of the closed form is the helicity angle after chained boosts; q0 / p0 of the barrier factors follow the
     # current resonance mass: frame typing of the chain boosts and soundness of memoisation
@@ -173,6 +174,56 @@ def barrier(repo, chk):
             chk.oblige("F-barrier", "%s, l=%s: (barrier)^2 == q^(2l) |theta_l(i q0 d)|^2/|theta_l(i q d)|^2, and positive" % (name, l), ok and pos)
             if not (ok and pos):
                 chk.violation("F-barrier", fn.key, "l=%s" % l, "barrier factor for l=%s is %s, the closed form requires q^l B'_l(q,q0,d): %s" % (l, got, detail), file=CORE, line=fn.lineno)
+
+
+def barrier_options(repo, chk):
+    """the option flags of get_barrier_factor2, one at a time (each flag's documented effect on q^l B'_l)"""
+    from .c15_kernels import BWF, ref_poly
+    chk.rule("F-baropt", "get_barrier_factor2 with one option flag changed at a time (l = 0..4): barrier_factor_norm divides by q0^l (so the factor is (q/q0)^l B'_l, equal to one at q = q0); has_ql=False drops q^l; has_bprime=False leaves q^l; barrier_factor_mass multiplies by m^-l; force_min_l uses the smallest l for every entry")
+    cls = repo.cls(CORE + "::HelicityDecay")
+    fn = cls.methods["get_barrier_factor2"]
+    q, q0, d, m = sp.symbols("q q0 d m", positive=True)
+
+    def coeff_hook(tr, args, kwargs, n):
+        L = int(args[0])
+        zz = sp.Symbol("zz__")
+        p = sp.Poly(ref_poly(L, zz), zz)
+        return [p.coeff_monomial(zz ** (L - i)) for i in range(L + 1)]
+
+    ls = [sp.Integer(k) for k in range(5)]
+    base = {"has_barrier_factor": True, "barrier_factor_mass": False, "has_ql": True, "has_bprime": True, "barrier_factor_norm": False, "force_min_l": False, "no_q0": False}
+
+    def B2(l):
+        return ref_poly(int(l), (q0 * d) ** 2) / ref_poly(int(l), (q * d) ** 2)
+
+    variants = [
+        ("barrier_factor_norm", {"barrier_factor_norm": True}, lambda l: (q / q0) ** (2 * l) * B2(l)),
+        ("has_ql=False", {"has_ql": False}, lambda l: B2(l)),
+        ("has_bprime=False", {"has_bprime": False}, lambda l: q ** (2 * l)),
+        ("barrier_factor_mass", {"barrier_factor_mass": True}, lambda l: q ** (2 * l) * B2(l) / m ** (2 * l)),
+    ]
+    for label, change, want in variants:
+        attrs = dict(base)
+        attrs.update(change)
+        attrs["ls_list"] = tuple((l, sp.Integer(0)) for l in ls)
+        tr = Translator(repo, hooks={BWF + "get_bprime_coeff": coeff_hook, "stack_as_array": True, "concrete_zeros": True}, max_depth=6)
+        try:
+            out = tr.call_fn(fn, [m, q ** 2, q0 ** 2, d], self_obj=SelfObj(cls, attrs))
+        except Unmodelled as e:
+            raise AnalysisError("get_barrier_factor2 not translatable with %s: %s" % (label, e))
+        flat = np.asarray(out, dtype=object).reshape(-1)
+        if len(flat) != len(ls):
+            raise AnalysisError("get_barrier_factor2 (%s) returned %d components for %d orbital momenta" % (label, len(flat), len(ls)))
+        bad = None
+        for l, got in zip(ls, flat):
+            ok, detail = equal(sp.sympify(got) ** 2, want(l))
+            if ok is None:
+                raise AnalysisError("E6 normaliser too weak for get_barrier_factor2 (%s), l=%s: %s" % (label, l, detail))
+            if not ok and bad is None:
+                bad = (l, got, detail)
+        chk.oblige("F-baropt", "get_barrier_factor2 with %s, l = 0..4" % label, bad is None)
+        if bad:
+            chk.violation("F-baropt", fn.key, "%s:l=%s" % (label, bad[0]), "with %s the factor for l=%s is %s, expected (squared) %s: %s" % (label, bad[0], bad[1], want(bad[0]), bad[2]), file=CORE, line=fn.lineno)
 
 
 def decay_amplitudes(repo, chk):
